@@ -15,7 +15,9 @@ RULE = ("Hypothesis draws a non-singular, well-conditioned operator tree (produc
         "sides of 1) and a pair (log_alg, trace_alg) from {omitted, Auto, Cholesky (PSD only), LU, Lanczos(max_iters>=n), "
         "Arnoldi(max_iters>=n)} x {omitted, Auto, Exact}. Oracle: numpy.linalg.slogdet of the reference matrix in "
         "float64/complex128; |sign| = 1 (exactly +-1 for real operators); logdet == logabs. Non-trivial: a structural rule, "
-        "|det| < 1, negative/complex sign, or a Krylov algorithm.")
+        "|det| < 1, negative/complex sign, or a Krylov algorithm. Scalar multiples whose false annotation (open finding "
+        "F-C05-scalar) is never read - they sit only below Product / Kronecker / BlockDiag nodes, which recurse factor by "
+        "factor - are judged, not excluded.")
 ASSUMPTIONS = [
     "tolerance: |logabs - ref| <= tol * max(1, |ref|, n), |sign - ref| <= tol with tol = 1e-8 (f64 trees), 2e-3 (trees containing f32), x100 for Lanczos/Arnoldi paths",
     "inputs are non-singular with cond <~ 1e3 by construction; in-contract refusals (Cholesky/Lanczos on operators not declared PSD/SelfAdjoint) are not failures",
@@ -102,7 +104,12 @@ def check(case, out):
     out.label(*TP.tree_labels(tree, R))
     out.label("log_alg:" + case["log_alg"], "trace_alg:" + case["trace_alg"], "fn:" + case["fn"])
     A = IR.build(tree)
-    if TP.scalar_invalidated_annotations(A) & {"PSD", "SelfAdjoint"} or TP.contaminated_by_scalar(tree, ("PSD", "SelfAdjoint")):
+    # open finding F-C05-scalar: a scalar multiple falsely reporting PSD / SelfAdjoint matters only where that annotation
+    # is read, i.e. below a node without a structural slogdet rule (Sum, Transpose, ...); Product (square factors),
+    # Kronecker and BlockDiag recurse factor by factor and never read it, so those cases stay decidable
+    from cola.ops import BlockDiag, Kronecker, Product
+    if (TP.scalar_invalidated_annotations(A, (Product, Kronecker, BlockDiag)) & {"PSD", "SelfAdjoint"}
+            or TP.contaminated_by_scalar(tree, ("PSD", "SelfAdjoint"), transparent=("prod", "kron", "bd", "scale", "neg", "div"))):
         out.inconclusive += 1
         out.label("contaminated:F-C05-scalar")
         return
